@@ -371,3 +371,6 @@ def run(rep, tier):
         from . import c09
         rep.call(c09.sizing, rep, prog, "C07.premultiply-whole")
         rep.call(c09.write_before_read, rep, prog, "C07.premultiply-before-read")
+        # the raw copy skips premultiply / divide: it must be taken for the exact identity only
+        from . import c12
+        rep.call(c12.copy_cond, rep, prog, "C07.copy-cond")
